@@ -531,6 +531,45 @@ func TestBehaviour(t *testing.T) {
 	behFacet.Each(t, cases)
 }
 
+// ---- facet: links (bindings the interpreter depends on by identity; prototypes as instances of their class) ----
+
+type linkCase struct {
+	Config string `json:"config"`
+	Name   string `json:"name"`
+}
+
+var linksFacet = harness.Register(&harness.Facet[linkCase]{
+	Name: "links",
+	Rule: "exhaustive: every behavioural link of lib/m14 Links x every configuration. Group identity: the bindings whose identity the interpreter itself depends on are the ones of THIS runtime - a direct call of eval reads, writes and declares locals and an indirect one runs in global scope (15.1.2.1.1, 10.4.2), this of a plain call and the variable environment are this runtime's global object, function objects / literals / primitives / arguments objects / results of built-ins inherit from this runtime's prototypes, errors raised by the interpreter and by built-ins are instances of this runtime's NativeError constructors. Group prototype-instance: every built-in prototype object behaves as an instance of its class (Array.prototype couples indices and length, String.prototype is the empty String object, Number/Boolean.prototype carry +0/false, Date.prototype NaN, Function.prototype is callable and returns undefined, Error prototypes print their name). Every link is non-trivial; distinct by (configuration, link).",
+	Check: func(c linkCase) harness.Outcome {
+		l, ok := m14.FindLink(c.Name)
+		if !ok {
+			return harness.Outcome{Discard: "link no longer in the table"}
+		}
+		res := eval(c.Config, m14.LinkProbe(l))
+		out := harness.Outcome{Nontrivial: true, Classes: []string{"config:" + c.Config, "group:" + l.Group}}
+		var mm []m14.Mismatch
+		if res != "true" {
+			mm = append(mm, m14.Mismatch{Aspect: "check", Want: "true", Got: res})
+		}
+		bad, excl := applyMasks("links", l.Name, mm)
+		out.Excluded = excl
+		out.Fail = failText("link "+l.Name+" in configuration "+c.Config+": "+l.Check, l.Ref, bad)
+		return out
+	},
+})
+
+func TestLinks(t *testing.T) {
+	var cases []linkCase
+	for _, cfg := range configs() {
+		for _, l := range m14.Links() {
+			cases = append(cases, linkCase{cfg, l.Name})
+		}
+	}
+	harness.SetExhaustive(linksFacet.Name)
+	linksFacet.Each(t, cases)
+}
+
 // ---- facet: dump (identity of the discovered shape between configurations) --------------------------------------------
 
 type dumpCase struct {
